@@ -212,6 +212,26 @@ def decision_table(ctx, fn, g):
     if ver_param not in fn.params:
         ctx.undecided("C11.3", fn, "parameter 'version' vanished")
         return
+    lits = {x.value for x in ast.walk(fn.node) if isinstance(x, ast.Constant) and isinstance(x.value, str)}
+    if not (any("urn:btih:" in x for x in lits) and any("urn:btmh:" in x for x in lits)):
+        # the exact-topic prefixes are not written in this function (a table / helper emits them): the row-by-row trace of
+        # the statements of magnet() has nothing to observe
+        ctx.undecided("C11.3", fn, "the urn:btih / urn:btmh topics are not emitted by statements of magnet() itself; which topics a version request yields is not decided")
+        return
+    # `if` statements that neither emit a topic / separator nor leave the function: whichever way they go, the row reads the same
+    def observable(st):
+        for x in ast.walk(st):
+            if isinstance(x, (ast.Return, ast.Raise)):
+                return True
+            cs = const_str(x) if isinstance(x, ast.Constant) else None
+            if cs and ("urn:bt" in cs or cs == "&" or "&dn=" in cs):
+                return True
+        return False
+    idle_tests = set()
+    for st in own_nodes(fn.node):
+        if isinstance(st, ast.If) and not any(observable(b) for b in st.body + st.orelse):
+            for x in ast.walk(st.test):
+                idle_tests.add(x)
     rows = 0
     for (mv, pc, ver), (want_ih, want_mh) in sorted(SPEC.items()):
         env = {}
@@ -276,6 +296,8 @@ def decision_table(ctx, fn, g):
                     return bool(ver)
             if isinstance(x, ast.Call) and C.is_ext_call(ctx, x, fn, ("os.path.exists", "os.path.isfile")):
                 return True
+            if x in idle_tests:
+                return True
             return None
         label = "meta version %s, pieces %s, version=%d" % ("present" if mv else "absent", "present" if pc else "absent", ver)
         rows += 1
@@ -304,43 +326,145 @@ def decision_table(ctx, fn, g):
     ctx.floor("magnet decision-table rows", 8, rows)
 
 
-def params(ctx, fn, flow):
-    found = {"&dn=": 0, "&tr=": 0, "&ws=": 0}
-    want_field = {"&dn=": {("info", "name", 0)}, "&ws=": {("meta", "url-list", 1)}}
-    tr_ok = ({("meta", "announce-list", 2)}, {("meta", "announce", 0)})
-    for n in own_nodes(fn.node):
-        if isinstance(n, ast.BinOp) and isinstance(n.op, ast.Add):
-            for side, other in ((n.left, n.right),):
-                cs = const_str(side)
-                if cs not in found:
+def _fold_str(ts):
+    """The string a term set denotes if it is a constant or a concatenation of constants, else None."""
+    if len(ts) != 1:
+        return None
+    t = next(iter(ts))
+    if t[0] == "const" and isinstance(t[1], str):
+        return t[1]
+    if t[0] == "op" and t[1] == "Add" and len(t[2]) == 2:
+        a, b = _fold_str(t[2][0]), _fold_str(t[2][1])
+        if a is not None and b is not None:
+            return a + b
+    return None
+
+
+QUOTERS = ("urllib.parse.quote_plus", "urllib.parse.quote")
+URI_FIELDS = {"name": "&dn=", "announce-list": "&tr=", "announce": "&tr=", "url-list": "&ws="}
+
+
+def uri_field_occurrences(terms):
+    """[(field key, prefix | None, quoted, bad safe set | None, transformed-by | None, foreign base | None)] for every place a
+    metafile field enters the URI term."""
+    out = []
+    PASS_THROUGH = {"builtins.list", "builtins.tuple", "builtins.iter", "itertools.chain", "itertools.chain.from_iterable", "builtins.map", "builtins.str"}
+
+    def is_quoter_ref(ts):
+        return any((x[0] in ("global", "ext", "attr") and str(x[-1] if x[0] != "ext" else x[1]).split(".")[-1] in ("quote_plus", "quote")) for x in ts)
+
+    def walk(ts, prefix, quoted, bad, depth=0, tr=None):
+        if depth > 40:
+            return
+        for t in ts:
+            k = t[0]
+            if k == "sub":
+                keys = [i[1] for i in t[2] if i[0] == "const"]
+                if len(keys) == 1 and keys[0] in URI_FIELDS and any(x[0] == "ext" and x[1] == "pyben.load" for x in walk_terms(t[1])):
+                    base = t[1] if keys[0] != "name" else frozenset(b for x in t[1] if x[0] == "sub" for b in x[1]) or t[1]
+                    foreign = [x for x in base if not (x[0] == "ext" and x[1] == "pyben.load")]
+                    out.append((keys[0], prefix, quoted, bad, tr, show(frozenset(foreign), maxdepth=2)[:60] if foreign else None))
                     continue
-                found[cs] += 1
-                if not (isinstance(other, ast.Call) and C.is_ext_call(ctx, other, fn, ("urllib.parse.quote_plus", "urllib.parse.quote"))):
-                    ctx.violated("C11.4", fn, "the value after %r is not passed through urllib.parse.quote / quote_plus: '&', '=', '#', '%%', '+' or spaces in it corrupt the URI" % cs, n)
-                    continue
-                safe = None
-                for kw in other.keywords:
-                    if kw.arg == "safe":
-                        safe = const_str(kw.value)
-                        if safe is None:
-                            safe = "?"
-                if len(other.args) > 1:
-                    safe = const_str(other.args[1]) or "?"
-                if safe == "?" or (safe and set(safe) & BAD_SAFE):
-                    ctx.violated("C11.4", fn, "quote safe set %r lets a reserved character through after %r" % (safe, cs), n)
-                    continue
-                t = flow.term(other.args[0], fn) if other.args else frozenset()
-                f = _field_of(t)
-                if cs == "&tr=":
-                    ok = f in tr_ok
-                    wanted = "each URL of announce-list (tier by tier) or the primary tracker"
+                walk(t[1], prefix, quoted, bad, depth + 1, tr)
+            elif k == "meth" and t[1] == "get" and len(t) > 3 and t[3] and [i[1] for i in t[3][0] if i[0] == "const"] \
+                    and [i[1] for i in t[3][0] if i[0] == "const"][0] in URI_FIELDS and any(x[0] == "ext" and x[1] == "pyben.load" for x in walk_terms(t[2])):
+                # meta.get("url-list", ()) reads the field like meta["url-list"] does
+                key = [i[1] for i in t[3][0] if i[0] == "const"][0]
+                foreign = [x for x in t[2] if not (x[0] == "ext" and x[1] == "pyben.load")] if key != "name" else []
+                out.append((key, prefix, quoted, bad, tr, show(frozenset(foreign), maxdepth=2)[:60] if foreign else None))
+            elif k == "op" and t[1] == "Add" and len(t[2]) == 2:
+                p = _fold_str(t[2][0])
+                if p is not None and any(p.endswith(x) for x in ("&dn=", "&tr=", "&ws=")):
+                    walk(t[2][1], p[-4:], quoted, bad, depth + 1, tr)
                 else:
-                    ok = f == want_field[cs]
-                    wanted = "info.name" if cs == "&dn=" else "each element of url-list"
-                ctx.decide("C11.4", fn, ok, "%r carries quote(%s)" % (cs, wanted),
-                           "%r carries %s, expected %s" % (cs, show(t, maxdepth=3)[:100], wanted), n)
-    for k, v in found.items():
-        ctx.floor("URI parameter %s sites" % k, 2 if k == "&tr=" else 1, v)
+                    walk(t[2][0], prefix, quoted, bad, depth + 1, tr)
+                    walk(t[2][1], prefix, quoted, bad, depth + 1, tr)
+            elif k == "ext" and t[1] in QUOTERS:
+                safe = None
+                for nm, v in t[3]:
+                    if nm == "safe":
+                        safe = _fold_str(v) if _fold_str(v) is not None else "?"
+                if len(t[2]) > 1:
+                    safe = _fold_str(t[2][1]) if _fold_str(t[2][1]) is not None else "?"
+                b2 = safe if (safe == "?" or (safe and set(safe) & BAD_SAFE)) else bad
+                if t[2]:
+                    walk(t[2][0], prefix, True, b2, depth + 1, tr)
+            elif k == "ext" and t[1] == "builtins.map" and len(t[2]) >= 2:
+                q = quoted or is_quoter_ref(t[2][0])
+                for a in t[2][1:]:
+                    walk(a, prefix, q, bad, depth + 1, tr)
+            elif quoted and ((k == "ext" and t[1] not in PASS_THROUGH) or k == "meth" or (k == "op" and t[1] != "Add")):
+                what = t[1]
+                for part in t[1:]:
+                    for sub in ([part] if isinstance(part, frozenset) else [x for x in part if isinstance(x, frozenset)] if isinstance(part, tuple) else []):
+                        walk(sub, prefix, quoted, bad, depth + 1, tr or str(what))
+            elif k == "inloop":
+                walk(t[1], prefix, quoted, bad, depth + 1)       # t[2] is the iterable that drives the loop, not content
+            elif k == "fstr":
+                cur = prefix
+                for part in t[1]:
+                    p = _fold_str(part)
+                    if p is not None:
+                        cur = p[-4:] if any(p.endswith(x) for x in ("&dn=", "&tr=", "&ws=")) else cur
+                    else:
+                        walk(part, cur, quoted, bad, depth + 1, tr)
+            else:
+                for part in t[1:]:
+                    for sub in ([part] if isinstance(part, frozenset) else [x for x in part if isinstance(x, frozenset)] if isinstance(part, tuple) else []):
+                        walk(sub, prefix, quoted, bad, depth + 1, tr)
+                    if isinstance(part, tuple):
+                        for x in part:
+                            if isinstance(x, tuple) and len(x) == 2 and isinstance(x[1], frozenset):
+                                walk(x[1], prefix, quoted, bad, depth + 1, tr)
+    walk(terms, None, False, None)
+    return out
+
+
+def params(ctx, fn, flow):
+    """C11.4 on the origin term of the returned URI (helpers are expanded by the flow analysis): every place where the
+    metafile's name, tracker URLs or web seeds enter the string is percent-quoted and follows the right parameter name."""
+    ret = [n for n in own_nodes(fn.node) if isinstance(n, ast.Return) and n.value is not None]
+    t = frozenset()
+    for r in ret:
+        t |= flow.term(r.value, fn)
+    occ = uri_field_occurrences(t)
+    by_key = {}
+    for key, prefix, quoted, bad, tr, foreign in occ:
+        by_key.setdefault(key, []).append((prefix, quoted, bad, tr, foreign))
+    label_of = {"name": "info.name", "announce-list": "each URL of announce-list (tier by tier)", "announce": "the primary tracker", "url-list": "each element of url-list"}
+    for key in ("name", "announce-list", "announce", "url-list"):
+        want = URI_FIELDS[key]
+        lst = by_key.get(key, [])
+        site = "URI field " + key
+        if not lst:
+            if key == "announce" and by_key.get("announce-list"):
+                ctx.holds("C11.4", fn, "trackers are taken from announce-list", site, nontrivial=False)
+            else:
+                ctx.violated("C11.4", fn, "%s never reaches the returned URI (the %r parameter is missing or built from something else)" % (label_of[key], want), site)
+            continue
+        unq = [x for x in lst if not x[1]]
+        badsafe = [x for x in lst if x[2]]
+        transformed = [x for x in lst if x[3]]
+        foreign = [x for x in lst if x[4]]
+        if foreign:
+            ctx.violated("C11.4", fn, "%s is (also) taken from %s, not only from the metafile read from disk" % (label_of[key], foreign[0][4]), site)
+            continue
+        if transformed:
+            ctx.violated("C11.4", fn, "%r carries %s(%s), not the value itself: it no longer decodes to what the metafile says" % (want, transformed[0][3], label_of[key]), site)
+            continue
+        wrongp = [x for x in lst if x[0] is not None and x[0] != want]
+        nop = [x for x in lst if x[0] is None]
+        if unq:
+            ctx.violated("C11.4", fn, "the value after %r (%s) is not passed through urllib.parse.quote / quote_plus: '&', '=', '#', '%%', '+' or spaces in it corrupt the URI" % (want, label_of[key]), site)
+        elif badsafe:
+            ctx.violated("C11.4", fn, "quote safe set %r lets a reserved character through after %r" % (badsafe[0][2], want), site)
+        elif wrongp:
+            ctx.violated("C11.4", fn, "%s is emitted after %r, expected %r" % (label_of[key], wrongp[0][0], want), site)
+        elif nop:
+            ctx.undecided("C11.4", fn, "%s reaches the URI quoted, but the parameter name in front of it could not be established" % label_of[key], site)
+        else:
+            ctx.holds("C11.4", fn, "%r carries quote(%s)" % (want, label_of[key]), site)
+    ctx.floor("metafile fields entering the URI", 3, len(by_key))
     # no filtering / reordering between the metafile lists and the URI
     problems = 0
     for n in own_nodes(fn.node):
@@ -364,15 +488,6 @@ def params(ctx, fn, flow):
                 ctx.violated("C11.4", fn, "a slice drops part of a metafile list", n)
     if not problems:
         ctx.holds("C11.4", fn, "no filter, slice, set or sort between the metafile's lists and the URI (order and multiplicity preserved)", "order preservation")
-    # every URI part reaches the returned string
-    ret = [n for n in own_nodes(fn.node) if isinstance(n, ast.Return) and n.value is not None]
-    t = frozenset()
-    for r in ret:
-        t |= flow.term(r.value, fn)
-    consts = {x[1] for x in walk_terms(t) if x[0] == "const" and isinstance(x[1], str)}
-    for part in ("&dn=", "&tr=", "&ws="):
-        ctx.decide("C11.4", fn, part in consts, "the %r parameter reaches the returned URI" % part,
-                   "the %r parameter is built but never reaches the returned URI" % part, "returned URI contains " + part)
 
 
 MUTANTS = [
